@@ -282,7 +282,8 @@ Print Assumptions C01_model_mixing.
     tracked state (checked interpreter; the unchecked one follows by [C03_checked_implies_unchecked]) *)
 Theorem C01_composition_exec_step : forall s ks kd sw dw v ws kw s' rb,
   good_state s -> cstate s -> csim s rb -> 0 < v -> exec_step s ks kd sw dw v ws kw = (s', None) ->
-  exists new rb', st_wl s' = emit (st_wl s) new /    interp true (w_dev (st_wl s)) rb new = Some rb' /\ csim s' rb' /\ cstate s'.
+  exists new rb', st_wl s' = emit (st_wl s) new /\
+    interp true (w_dev (st_wl s)) rb new = Some rb' /\ csim s' rb' /\ cstate s'.
 Proof. exact exec_step_csim. Qed.
 Print Assumptions C01_composition_exec_step.
 
@@ -290,7 +291,8 @@ Print Assumptions C01_composition_exec_step.
 Theorem C01_composition_transfer : forall s ks swells kd dwells vols label ws pb kw s' rb,
   good_state s -> cstate s -> csim s rb ->
   transfer s ks swells kd dwells vols label ws pb kw = (s', None) ->
-  exists new rb', st_wl s' = emit (st_wl s) new /    interp true (w_dev (st_wl s)) rb new = Some rb' /\ csim s' rb' /\ cstate s'.
+  exists new rb', st_wl s' = emit (st_wl s) new /\
+    interp true (w_dev (st_wl s)) rb new = Some rb' /\ csim s' rb' /\ cstate s'.
 Proof. exact transfer_csim. Qed.
 Print Assumptions C01_composition_transfer.
 
@@ -298,7 +300,8 @@ Print Assumptions C01_composition_transfer.
 Theorem C01_composition_run : forall s0 ops,
   good_state s0 -> cstate s0 -> w_recs (st_wl s0) = [] -> forallb tr_op ops = true ->
   Forall (fun e => e = None) (snd (run s0 ops)) ->
-  exists rb, interp false (w_dev (st_wl s0)) (robot_of (st_lw s0)) (w_recs (st_wl (fst (run s0 ops)))) = Some rb /             csim (fst (run s0 ops)) rb.
+  exists rb, interp false (w_dev (st_wl s0)) (robot_of (st_lw s0)) (w_recs (st_wl (fst (run s0 ops)))) = Some rb /\
+             csim (fst (run s0 ops)) rb.
 Proof. exact run_composition. Qed.
 Print Assumptions C01_composition_run.
 
@@ -322,8 +325,11 @@ Example C01_example_composition :
   let r := run (ex_state Evo)
     [OTransfer 0 (A1 ["A01"; "B01"]%string) 0 (A1 ["A02"; "A02"]%string) (A1 [2000; 50]) None SFlush "auto"%string kw_default;
      OTransfer 0 (A1 ["A02"]%string) 1 (A1 ["A01"]%string) (A1 [100]) None SFlush "auto"%string kw_default] in
-  snd r = [None; None] /  map lw_vols (st_lw (fst r)) = [[1000; 1950; 50; 0]; [600; 500]] /  match interp false Evo (robot_of (st_lw (ex_state Evo))) (w_recs (st_wl (fst r))) with
-  | Some rb => forallb (fun p => C01_fractions_agree (fst p) (snd p)) (combine (st_lw (fst r)) (rb_racks rb)) = true /               map (fun r0 => cfrac (rk_comp r0) "big.A01"%string 0%nat) (rb_racks rb) = [1; 2000 # 12300]
+  snd r = [None; None] /\
+  map lw_vols (st_lw (fst r)) = [[1000; 1950; 50; 0]; [600; 500]] /\
+  match interp false Evo (robot_of (st_lw (ex_state Evo))) (w_recs (st_wl (fst r))) with
+  | Some rb => forallb (fun p => C01_fractions_agree (fst p) (snd p)) (combine (st_lw (fst r)) (rb_racks rb)) = true /\
+               map (fun r0 => Qred (cfrac (rk_comp r0) "big.A01"%string 0%nat)) (rb_racks rb) = [1; 20 # 123]
   | None => False
   end.
 Proof. vm_compute. repeat split; reflexivity. Qed.
